@@ -336,3 +336,12 @@ Fixpoint foreign_pre (self : bytes) (t : tref) : list bytes :=
 (* ... and in the order rawNamer.Name registers them: nested arguments first, then the reference's own package *)
 Definition foreign (self : bytes) (t : tref) : list bytes :=
   flat_map (foreign_pre self) (t_args t) ++ (if is_foreign self (t_path t) then [t_path t] else []).
+
+(* what a package path is replaced by: nothing for "no path" and for the target package itself,
+   the import name otherwise *)
+Definition ren_paths (local : bytes -> bytes) (self q : bytes) : bytes :=
+  if is_nil q then [] else if bytes_eqb q self then [] else local q.
+
+(* every PkgPath field of the tree *)
+Fixpoint all_paths (t : tref) : list bytes :=
+  match t with TRef p n args => p :: flat_map all_paths args end.
